@@ -73,6 +73,8 @@ func runC06(c *Ctx) {
 	c06SelectorsIndependent(c)
 	if q := p.Pkg("private/bufpkg/bufcheck"); q != nil {
 		c06DirectiveAnchored(c, q)
+		c06AnnotationJudgedAlone(c, q)
+		c06UndeprecateUngated(c, q)
 		c06DuplicatesCheckedTogether(c, q)
 		ruleSharedAppend(c, "SHARED-APPEND", []*packages.Package{q})
 	}
